@@ -39,6 +39,10 @@ func main() {
 
 	opt := newDefaultOptions()
 	opt.WorkDir = *workDir
+	// Redis read-modify-write commands (INCR family, SET NX/XX) run inside db.Update and rely on
+	// ErrConflict to serialize concurrent clients; without it two clients that read the same
+	// snapshot both commit and one update is lost.
+	opt.DetectConflicts = true
 	if opt.MaxBatchCount <= 0 {
 		opt.MaxBatchCount = int64(opt.WriteBatchMaxCount)
 		if opt.MaxBatchCount <= 0 {
